@@ -1,5 +1,5 @@
 // govc:pkg .
-// govc:bound 14 analytic SELECT items x 40 (thorough: 160) random feeds of 12 rows over 3 partitions (NULL values included): each partition's output sequence interleaved vs. fed alone, EmitSync vs. Emit + synchronous sink, and lag / acc_sum / acc_count / acc_max / latest against their definitions
+// govc:bound second test: 4 queries with two or three analytic fields x 10 (thorough: 40) feeds, every column compared with the same field queried alone; first test: 14 analytic SELECT items x 40 (thorough: 160) random feeds of 12 rows over 3 partitions (NULL values included): each partition's output sequence interleaved vs. fed alone, EmitSync vs. Emit + synchronous sink, and lag / acc_sum / acc_count / acc_max / latest against their definitions
 // Bounded stand-in (NOT a proof) for the wiring above the state machines under contract (partition key derivation, engine
 // dispatch, projection): partitions must not influence each other and both API paths must agree.
 package streamsql
@@ -9,6 +9,7 @@ import (
 	"fmt"
 	"math/rand"
 	"reflect"
+	"strings"
 	"sync"
 	"testing"
 	"time"
@@ -230,6 +231,73 @@ func TestGovcBounded_analytic_partitions(t *testing.T) {
 		}
 	}
 	fmt.Printf("GOVC-BOUNDED-DONE analytic cases=%d failures=%d\n", cases, fails)
+	if fails > 0 {
+		t.Fail()
+	}
+}
+
+// several analytic fields in one query: every field sees the input row only, so each column of the combined query equals
+// the column of the query that has this field alone (also when an alias re-uses an input column name)
+func TestGovcBounded_analytic_fields_are_independent(t *testing.T) {
+	rng := rand.New(rand.NewSource(77))
+	combos := [][][2]string{
+		{{"acc_count(v) OVER (PARTITION BY k)", "n"}, {"had_changed(true, v) OVER (PARTITION BY k)", "ch"}, {"acc_sum(v) OVER (PARTITION BY k)", "total"}},
+		{{"lag(v) OVER (PARTITION BY k)", "v"}, {"acc_sum(v) OVER (PARTITION BY k)", "total"}},
+		{{"latest(v) OVER (PARTITION BY k)", "w"}, {"lag(w) OVER (PARTITION BY k)", "pw"}, {"acc_max(v) OVER (PARTITION BY k)", "m"}},
+		{{"acc_sum(v) OVER (PARTITION BY k)", "s"}, {"lag(v, 2) OVER (PARTITION BY k)", "l2"}},
+	}
+	feeds := 10
+	if os.Getenv("GOVC_BOUND") == "thorough" {
+		feeds = 40
+	}
+	cases, fails := 0, 0
+	for ci, combo := range combos {
+		for f := 0; f < feeds; f++ {
+			cases++
+			var rows []map[string]any
+			for i := 0; i < 12; i++ {
+				r := map[string]any{"id": i, "k": []string{"a", "b", "c"}[rng.Intn(3)], "w": float64(rng.Intn(5))}
+				if rng.Intn(5) > 0 {
+					r["v"] = float64(rng.Intn(9))
+				} else if rng.Intn(2) == 0 {
+					r["v"] = nil
+				}
+				rows = append(rows, r)
+			}
+			var items []string
+			for _, it := range combo {
+				items = append(items, it[0]+" AS "+it[1])
+			}
+			all, err := govcAnaRun("SELECT id, "+strings.Join(items, ", ")+" FROM stream", rows, false)
+			detail := ""
+			if err != nil {
+				detail = "combined query: " + err.Error()
+			}
+			for _, it := range combo {
+				if detail != "" {
+					break
+				}
+				one, err := govcAnaRun("SELECT id, "+it[0]+" AS "+it[1]+" FROM stream", rows, false)
+				if err != nil {
+					detail = "single query " + it[0] + ": " + err.Error()
+					break
+				}
+				for i := range rows {
+					if i >= len(all) || i >= len(one) || !govcNumEq(all[i][it[1]], one[i][it[1]]) {
+						detail = fmt.Sprintf("row %d column %s (%s): %v in the combined query, %v alone", i, it[1], it[0], all[i][it[1]], one[i][it[1]])
+						break
+					}
+				}
+			}
+			if detail != "" {
+				fails++
+				if fails <= 8 {
+					fmt.Printf("GOVC-BOUNDED-FAIL analytic_fields_independent combo=%d rows=%v: %s\n", ci, rows, detail)
+				}
+			}
+		}
+	}
+	fmt.Printf("GOVC-BOUNDED-DONE analytic_fields_independent cases=%d failures=%d\n", cases, fails)
 	if fails > 0 {
 		t.Fail()
 	}
